@@ -5,6 +5,8 @@ strategies for every NUL position and read history; the set of streams the model
 is the envelope against which every real run is validated, and no delivered line may contain NUL
 under Quit.  Part 2 (rg level): see checks/c14_rg.py.
 """
+import json
+
 import vlib
 from checks import search_common as sc
 
@@ -28,8 +30,110 @@ def main(tier):
                 chk.violation(dict(sc.mechanism(r), variant="design"),
                               {"why": "NoNulDelivered fails in the Searcher model", "scenario": {"scn": r["scn"], "reads": r["reads"]},
                                "reference": r["ref"], "observed": {"out": r["out"]}}, kind="design")
+    rg_part(chk, tier, recs)
     chk.exhaustive = True
     return chk.finish()
+
+
+def tokens(stdout, lines):
+    toks = []
+    for raw in stdout.split(b"\n"):
+        if raw == b"":
+            continue
+        if raw.startswith(b"binary file matches"):
+            toks.append({"k": "notice", "i": 0})
+            continue
+        if raw.startswith(b"WARNING: stopped searching binary file after match"):
+            toks.append({"k": "warning", "i": 0})
+            continue
+        j = 0
+        while j < len(raw) and 48 <= raw[j] <= 57:
+            j += 1
+        if j and raw[j:j + 1] in (b":", b"-"):
+            n = int(raw[:j])
+            if 1 <= n <= len(lines) and raw[j + 1:] == lines[n - 1]:
+                toks.append({"k": "line" if raw[j:j + 1] == b":" else "ctx", "i": n})
+                continue
+        if raw == b"--":
+            continue
+        toks.append({"k": "other", "i": 0})
+    return toks
+
+
+def rg_part(chk, tier, recs):
+    """The rg binary on files holding NUL bytes: stdout is tokenised and TLC judges every run against
+    specs/cli/BinaryPolicy.tla (dropped / cut with warning / at most a notice / --text = no detection)."""
+    import os
+    import rgrun
+    inputs = []
+    seen = set()
+    for r in recs:
+        b = bytes(r["scn"]["inp"])
+        if r["scn"]["cfg"]["term"] == "lf" and b not in seen and b:
+            seen.add(b)
+            inputs.append(b)
+    filler = b"".join(b"x%06d filler filler filler filler\n" % i for i in range(1900))     # ~ 66 KB, no match, no NUL
+    inputs += [filler + b"m\nm\x00\nm\n", b"m\n" + filler + b"\x00\nm\n", filler + b"x\x00m\n",
+               b"m\nm\nm\n" + filler + b"a\x00b\nm\n", b"m\n" * 3 + filler + filler + b"m\x00\n", filler + b"m\n"]
+    if tier == "quick":
+        inputs = inputs[::2] + inputs[-6:]
+    sc = rgrun.Scratch("c14rg")
+    jobs, meta = [], []
+    try:
+        for k, b in enumerate(inputs):
+            d = "d%d" % k
+            sc.write(d + "/f", b)
+            sc.write(d + "e/clean", b"x\nxx\n")
+            for naming in ("implicit", "explicit", "mixed"):
+                for mode, fl in (("default", []), ("binary", ["--binary"]), ("text", ["--text"])):
+                    for strat in ("--mmap", "--no-mmap"):
+                        for ctx in ([], ["-C1"]):
+                            if ctx and mode == "text":
+                                continue
+                            args = ["--no-config", "--color", "never", "-j1", "-n", "-I", "--no-heading", strat] + fl + ctx + ["-e", "m"]
+                            if naming == "explicit":
+                                args += [sc.path(d, "f")]
+                            elif naming == "mixed":
+                                # an explicitly named file without any match, then the directory: the traversed file
+                                # must be treated as a traversed file
+                                args += [sc.path(d + "e", "clean"), sc.path(d)]
+                            else:
+                                args += [sc.path(d)]
+                            jobs.append({"args": args})
+                            meta.append((k, "implicit" if naming == "mixed" else naming, mode, strat + ("+mixed" if naming == "mixed" else "") + ("+ctx" if ctx else "")))
+        outs = rgrun.run_many(jobs)
+        chk.evaluations += len(jobs)
+        runs = []
+        for rid, ((k, naming, mode, strat), (rc, so, se)) in enumerate(zip(meta, outs), 1):
+            b = inputs[k]
+            body = b[:-1].split(b"\n") if b.endswith(b"\n") else b.split(b"\n")
+            runs.append({"id": rid, "lines": [{"m": b"m" in l, "nul": b"\x00" in l} for l in body], "naming": naming, "mode": mode,
+                         "out": tokens(so, body), "nulout": b"\x00" in so, "rc": rc})
+        os.makedirs(os.path.join(vlib.WORK, "c14"), exist_ok=True)
+        path = os.path.join(vlib.WORK, "c14", "runs_%d.ndjson" % os.getpid())
+        with open(path, "w") as f:
+            for r in runs:
+                f.write(json.dumps(r) + "\n")
+        res = vlib.tlc("cli/BinaryPolicy", "BinaryPolicy", workers=8, timeout=1800, env={"RUNS": path})
+        os.remove(path)
+        if res.rc != 0:
+            raise vlib.ToolError("BinaryPolicy failed:\n" + res.tail(40))
+        chk.add_tlc(res)
+        bad = set(v["id"] for v in res.emits("VERDICT"))
+        vlib.log("[C14] rg level: %d runs judged by TLC, %d not allowed" % (len(runs), len(bad)))
+        for r, (k, naming, mode, strat), j, (rc, so, se) in zip(runs, meta, jobs, outs):
+            if r["id"] in bad:
+                chk.violation({"level": "rg", "naming": naming, "mode": mode, "strategy": strat, "nul_on_stdout": r["nulout"],
+                               "big": len(inputs[k]) > 60000},
+                              {"why": "output not allowed by BinaryPolicy", "args": j["args"][:-1], "input_len": len(inputs[k]),
+                               "input_head": list(inputs[k][:40]), "tokens": r["out"][:12], "stdout_head": so[:200].decode("latin1"),
+                               "rg_level": True})
+            else:
+                chk.validated += 1
+                if any(l["nul"] for l in r["lines"]) and r["out"]:
+                    chk.nontrivial_case("rg:%d:%s:%s:%s" % (k, naming, mode, strat))
+    finally:
+        sc.close()
 
 
 def replay(path):
